@@ -461,7 +461,7 @@ def obligations(tier, seed):
             if tier == "quick" and (ki + pi) % 2 == 1:
                 continue
             obs.append(Ob(id="C03.7-e2e[%s,%r]" % (KINDS[ki], E2E_PREFIXES[pi]), body="harness.C03:body_e2e", sig="kind: int, pre: int, tail: str",
-                          pre=["kind == %d" % ki, "pre == %d" % pi, "len(tail) <= %d" % (1 if tier == "quick" else 2), "all(c in 'a./|%' + chr(0) + chr(92) for c in tail)"], timeout=300 if tier == "quick" else 1200,
+                          pre=["kind == %d" % ki, "pre == %d" % pi, "len(tail) <= %d" % (1 if tier == "quick" else 2), "all(c in 'a./|%' + chr(0) + chr(92) + chr(0xdce9) for c in tail)"], timeout=300 if tier == "quick" else 1200,
                           desc="whole request `%s` frame with selector %r + symbolic tail through real detection, protocol and handler chain over the in-memory site: one well-formed response, nothing escapes, no access outside the root"
                                % (KINDS[ki], E2E_PREFIXES[pi]),
                           bounds="selector = %r + tail, |tail| <= %d over {a . / | %% NUL \\}" % (E2E_PREFIXES[pi], 1 if tier == "quick" else 2),
